@@ -83,6 +83,18 @@ def run(tier, seed):
             if kind == "dag" and st:
                 ops = [o for o in ops if o[0] not in ("decompose", "bottleneck")]
             insts.append({"kind": kind, "nodes": u["nodes"], "edges": u["edges"], "ew": u["ew"], "starts": st, "ends": [], "ops": ops})
+    # random DAGs on 5-7 nodes with 0/1 weight functions that also weigh the synthetic source/sink edges: zero-weight
+    # (zero-flow) edges around the min cut are where a cut extraction goes wrong while the VALUE stays right
+    for _ in range(60 if quick else 600):
+        u = C.random_dag(rng, rng.randint(5, 7), rng.randint(6, 10))
+        srcs = [v for v in u["nodes"] if all(e[1] != v for e in u["edges"])]
+        snks = [v for v in u["nodes"] if all(e[0] != v for e in u["edges"])]
+        AE = [list(e) for e in u["edges"]] + [["S*", v] for v in srcs] + [[v, "T*"] for v in snks]
+        ops = []
+        for p0 in (0.3, 0.5, 0.7):
+            ops.append(["antichain", [[e[0], e[1], 0 if rng.random() < p0 else 1] for e in AE]])
+        ops.append(["antichain", [[e[0], e[1], rng.choice([0, 0, 1, 3])] for e in AE]])
+        insts.append({"kind": "dag", "nodes": u["nodes"], "edges": u["edges"], "ew": u["ew"], "starts": [], "ends": [], "ops": ops})
     C.with_ids(insts)
     recs = P.drive_substrate(insts)
     bad_ctor = [r for r in recs if r["ctor_exc"] != "none"]
